@@ -64,9 +64,13 @@ def scalar_ops(b, r, rows, full=True):
     er = r.choice(EPS_RS); dt = r.choice([0, 1]); et = r.choice(ETR)
     b.add("rs", " ".join([A, fmt_q(er), str(dt), fmt_q(et), "0"]))
     b.add("rs_cf", " ".join([A, fmt_q(er), "0"]))
+    if not full and r.random() < 0.3: b.add("emin", " ".join([pe, "1"]))
     if full:
         b.add("pointwise_aggregates", " ".join([pe, "1", str(r.choice([0, 0, 2, 3]))]))
         b.add("aggregation", " ".join([pe, "1"]))
+        b.add("emin", " ".join([pe, "1"]))
+        if r.random() < 0.2:
+            eh = gen.f32(eps / 2); b.add("emin2", " ".join([pe, fmt_q(gen.f32_mul(eh, eh))]))
         if r.random() < 0.4:
             b.add("sa_gersh", " ".join([pe, "1", fmt_q(relax), fmt_q(C43)]))
         if r.random() < 0.3:
@@ -82,6 +86,7 @@ def block_ops(b, r, rows, bs, ncols=None):
     b.add("pointwise_aggregates", " ".join([pe, str(bs), str(r.choice([0, 0, 2, 3, 5]))]))
     b.add("aggregation", " ".join([pe, str(bs)]))
     b.add("sa", " ".join([pe, str(bs), fmt_q(relax), fmt_q(C23)]))
+    b.add("emin", " ".join([pe, str(bs)]))
 
 
 def kron_ops(b, r, rows, bs):
@@ -259,11 +264,11 @@ def derive(lines, impl):
             reg("%s.t tentative %d %d %s" % (cid, n, count, ivec_tokens(ids)))
             if bs == 1 and mina <= 1:
                 reg("%s.op o.partition %s %d %s %s" % (cid, A, count, ivec_tokens(ids), ivec_tokens(fl)), True)
-        elif op in ("aggregation", "sa", "sa_gersh", "rs", "kron_sa"):
+        elif op in ("aggregation", "sa", "sa_gersh", "rs", "kron_sa", "emin"):
             pr = parse_tr(out)
             if not pr: continue
             P, R = crs_tokens(pr[0]), crs_tokens(pr[1])
-            reg("%s.ot o.transpose %s %s" % (cid, P, R), True)
+            if op != "emin": reg("%s.ot o.transpose %s %s" % (cid, P, R), True)
             if op in ("kron_sa",): continue
             A, p = take_crs(tok, 0)
             if op == "aggregation":
@@ -282,10 +287,10 @@ def derive_pairs(lines, impl):
     for l in lines:
         cid, op, payload = (l.split(" ", 2) + [""])[:3]
         tok = payload.split()
-        if op not in ("plain_aggregates", "sa", "rs", "rs_cf"): continue
+        if op not in ("plain_aggregates", "sa", "rs", "rs_cf", "emin"): continue
         A, p = take_crs(tok, 0)
         if op == "plain_aggregates": key = ("agg", A, tok[p], tok[p + 1])
-        elif op == "sa":
+        elif op in ("sa", "emin"):
             if tok[p + 2] != "1": continue
             key = ("agg", A, tok[p], tok[p + 1])
         elif op == "rs":
@@ -297,12 +302,17 @@ def derive_pairs(lines, impl):
         by_key.setdefault(key, {}).setdefault(op, []).append((cid, tok, p, l))
     for key, d in by_key.items():
         A = key[1]
-        if key[0] == "agg" and "plain_aggregates" in d and "sa" in d:
+        if key[0] == "agg" and "plain_aggregates" in d and ("sa" in d or "emin" in d):
             acid = d["plain_aggregates"][0][0]
             pa = parse_aggr(impl.get(acid) or "")
             if not pa: continue
             count, ids, fl = pa
-            for cid, tok, p, l in d["sa"]:
+            for cid, tok, p, l in d.get("emin", []):
+                pr = parse_tr(impl.get(cid) or "")
+                if not pr or len(ids) > 24: continue
+                ln = "%s.oe o.emin_formula %s %s %d %s %s %s" % (cid, A, ivec_tokens(fl), count, ivec_tokens(ids), crs_tokens(pr[0]), crs_tokens(pr[1]))
+                orc.append(ln); origin[cid + ".oe"] = l
+            for cid, tok, p, l in d.get("sa", []):
                 pr = parse_tr(impl.get(cid) or "")
                 if not pr: continue
                 P = crs_tokens(pr[0])
@@ -379,7 +389,7 @@ def run(ctx, cases_override=None):
         for cid_, l_ in full.items():
             if l_.startswith(x["oracle"]["line"]): x["oracle_full"] = l_; break
         x["theorem"] = {"o.partition": "C04_plain_aggregates_partition", "o.ptent": "C04_tentative_structure",
-                        "o.sa_formula": "C04_sa_formula", "o.sa_rowsum": "C04_sa_row_sums",
+                        "o.sa_formula": "C04_sa_formula", "o.emin_formula": "C04 emin dense formulas (P = P_t - D^-1 A_F P_t Omega, R = P_t^T - Omega P_t^T A_F D^-1)", "o.sa_rowsum": "C04_sa_row_sums",
                         "o.rs_rowsum": "C04_rs_row_sums", "o.transpose": "C03/C04 R = transpose P",
                         "o.pwm_agree": "pointwise_matrix models of Aggregates.v and MatOps2.v agree"}.get(x["op"], x["theorem"]) + " (oracle %s)" % x["op"]
     fails += fo
